@@ -1,6 +1,6 @@
 """C10  Lookups and queries inside a session see the session's own unflushed changes."""
 import ast
-from ..loader import dotted, walk_no_nested, parents, norm, head
+from ..loader import dotted, walk_no_nested, parents, norm, head, calls_in
 from ..q import classify_attr_uses, cfg_node_of, is_call_to, nodes_calling
 
 EXPLANATION = """
@@ -143,6 +143,7 @@ def run(ctx, P='C10', cache_only=False):
     run_count_pairing(ctx)
     # ---------------------------------------------------------------- D
     run_noflush_reads(ctx)
+    run_pending_marks(ctx)
     # ---------------------------------------------------------------- E
     n = 0
     for fn in repo.rule_funcs():
@@ -164,6 +165,67 @@ def run(ctx, P='C10', cache_only=False):
                    'parameter has no primary key yet, NULL is sent instead, and the query does not see rows that reference it' % (c.lineno, PREP),
                    node=c, expected='%s() on every path before the values are converted' % PREP)
     ctx.floor('C10-E', n, 4, 'argument conversions in executing functions')
+
+
+def run_pending_marks(ctx):
+    repo, cg = ctx.repo, ctx.cg
+    # ---------------------------------------------------------------- F  (pending marks are settled by the write that makes them true)
+    # invariant behind count() / is_empty(): x in <SetData>.added  ==>  the database does not yet hold that link (count() adds len(added) to SELECT COUNT).
+    # F1  _calc_modified_m2m resets added/removed of EVERY collection it takes from modified_collections: scenario "the reverse side was collected already"
+    #     (`reverse in modified_m2m`) still passes a reset of .added before the next collection is taken.
+    cm = repo.fn('pony.orm.core', 'SessionCache._calc_modified_m2m'); g = cg.cfg(cm)
+    from ..typestate import scenario_edges
+    def second_side(text, node):
+        if isinstance(node, ast.Compare) and len(node.ops) == 1 and isinstance(node.ops[0], (ast.In, ast.NotIn)) and dotted(node.comparators[0]) == 'modified_m2m' and (dotted(node.left) or '').split('.')[-1] == 'reverse':
+            return isinstance(node.ops[0], ast.In)
+        if text.endswith('reverse.is_collection'): return True
+        if text.endswith("._status_ == 'marked_to_delete'"): return False
+        if isinstance(node, ast.Call) and dotted(node.func) == 'isinstance': return True
+        return None
+    eo = scenario_edges(g, cm.node, second_side, resolve=False)
+    resets = [x for x in g.nodes if x.kind == 'stmt' and isinstance(x.ast, ast.Assign) and any(isinstance(t, ast.Attribute) and t.attr == 'added' for t in x.ast.targets)
+              and isinstance(x.ast.value, ast.Constant) and x.ast.value.value is None]
+    outer = [x for x in g.nodes if x.kind == 'iter' and 'modified_collections' in norm(x.ast.iter)]
+    ctx.need(outer and resets, 'C10-F: the loop over modified_collections / the reset of .added was not found in _calc_modified_m2m')
+    body_starts = [y for o in outer for y, lab in g.succ[o.id] if lab not in ('exit', 'F', 'else') ]
+    reach_sc = g.reach(body_starts, edge_ok=eo)
+    ok = any(r.id in reach_sc for r in resets)
+    ctx.ob('C10-F.flush-settles-pending-marks-of-both-m2m-sides', cm, resets[0].ast, ok,
+           '' if ok else 'for the side of a many-to-many relation that is taken second from modified_collections no reset of SetData.added/.removed is reachable: the marks survive '
+           'the flush that wrote the rows, and count() adds them to SELECT COUNT(*) again', node=resets[0].ast)
+    # F2  whoever starts saving objects on its own (calls obj._save_() without the dependency list of a running save) also settles the pending marks
+    #     (_calc_modified_m2m is the only place where they are reset)
+    nf2 = 0
+    for fn in repo.rule_funcs():
+        if fn.mod.name != 'pony.orm.core': continue
+        starts = [c for c in calls_in(fn.node) if isinstance(c.func, ast.Attribute) and c.func.attr == '_save_' and not c.args and not c.keywords]
+        if not starts: continue
+        nf2 += 1
+        ok = any(isinstance(c.func, ast.Attribute) and c.func.attr == '_calc_modified_m2m' for c in calls_in(fn.node))
+        ctx.ob('C10-F.initiator-of-a-save-settles-the-pending-collection-marks', fn, starts[0], ok,
+               '' if ok else '%s writes objects with _save_() but never settles the pending marks of the collections they belong to (_calc_modified_m2m): after child.flush() the child '
+               'row is in the database and still in parent.children.added, so parent.children.count() counts it twice' % fn.qual, node=starts[0])
+    ctx.floor('C10-F', nf2, 2, 'functions that start saving objects')
+    # D' (converse of D)  a function that adjusts a query result by len(<x>.added) / len(<x>.removed) runs that query with the auto-flush suppressed --
+    #     otherwise the statement's own auto-flush writes the pending items first and they are counted twice
+    nd2 = 0
+    for fn in repo.rule_funcs():
+        if fn.mod.name != 'pony.orm.core': continue
+        adj = [st for st in walk_no_nested(fn.node) if isinstance(st, ast.AugAssign) and any(isinstance(c, ast.Call) and dotted(c.func) == 'len' and c.args and isinstance(c.args[0], ast.Attribute)
+                                                                                          and c.args[0].attr in ('added', 'removed') for c in ast.walk(st.value))]
+        if not adj: continue
+        guarded = set()
+        for w in walk_no_nested(fn.node):
+            if isinstance(w, ast.With) and any(isinstance(i.context_expr, ast.Call) and isinstance(i.context_expr.func, ast.Attribute) and i.context_expr.func.attr == 'flush_disabled' for i in w.items):
+                for st in w.body:
+                    for x in ast.walk(st): guarded.add(id(x))
+        for c in [c for c in calls_in(fn.node) if isinstance(c.func, ast.Attribute) and c.func.attr == '_exec_sql' and c.lineno < adj[0].lineno]:
+            nd2 += 1
+            ok = id(c) in guarded
+            ctx.ob('C10-D.result-adjusted-by-pending-changes-is-read-without-auto-flush', fn, c, ok,
+                   '' if ok else 'the result of this statement is corrected by len(.added)/len(.removed) afterwards, but the statement is not executed under flush_disabled(): its auto-flush '
+                   'writes the pending items first and they are counted twice', node=c)
+    ctx.floor('C10-D', nd2, 1, 'queries whose result is adjusted by pending collection changes')
 
 
 def run_noflush_reads(ctx):
@@ -280,6 +342,8 @@ def count_known_none(g, st, var):
 
 
 MUTANTS = [
+    dict(id='C10-f1', file='pony/orm/core.py', fn='SessionCache._calc_modified_m2m', old="            if reverse in modified_m2m:\n", new="            if reverse in modified_m2m: continue\n            if False:\n", expect='C10-F.flush-settles'),
+    dict(id='C10-d3', file='pony/orm/core.py', fn='SetInstance.count', old="        with cache.flush_disabled():\n            cursor = database._exec_sql(sql, arguments)\n        setdata.count = cursor.fetchone()[0]", new="        cursor = database._exec_sql(sql, arguments)\n        setdata.count = cursor.fetchone()[0]", expect='C10-D.result-adjusted'),
     dict(id='C10-e1', file='pony/orm/core.py', fn='EntityMeta._find_in_db_', old="        cache.prepare_connection_for_query_execution()  # flush: a new object used as a value gets its primary key\n", new="", expect='C10-E'),
     dict(id='C10-e2', file='pony/orm/core.py', fn='Query.delete', old="        cache.prepare_connection_for_query_execution()  # may clear cache.query_results\n        arguments = adapter(query._vars)\n", new="        arguments = adapter(query._vars)\n        cache.prepare_connection_for_query_execution()  # may clear cache.query_results\n", expect='C10-E'),
     dict(id='C10-d1', file='pony/orm/core.py', fn='SetInstance.is_empty', old="        cursor = database._exec_sql(sql, arguments)\n", new="        with cache.flush_disabled():\n            cursor = database._exec_sql(sql, arguments)\n", expect='C10-D'),
